@@ -74,6 +74,18 @@ func c10World() *crlWorld {
 	return c10W
 }
 
+var (
+	c10FBOnce sync.Once
+	c10FBW    *crlWorld
+)
+
+// c10WorldFallback: the same world, but the leaf also names an OCSP responder (which never answers here): the CRL is then
+// consulted through the OCSP-to-CRL fallback, and judged by the same rules.
+func c10WorldFallback() *crlWorld {
+	c10FBOnce.Do(func() { c10FBW = newCRLWorld("p256-a", 1, false, true, []string{"http://ocsp.c10.test/unreachable"}) })
+	return c10FBW
+}
+
 // c10Interp is the reference interpreter (RFC 5280 §5.3.1–5.3.2 as the statement reads it).
 // It returns the set of allowed verdicts.
 func c10Interp(entries []c10Entry, stSet bool) map[result.Result]bool {
@@ -178,6 +190,24 @@ func c10Scenarios(tier mc.Tier) []mc.Scenario {
 		cfgs = append(cfgs, cfg{"small-alphabet", small, 3})
 	}
 	var out []mc.Scenario
+	small2 := c10Alphabet([]int{1, 6, 8}, []int{0, 1}, []int{0, 3}, []bool{false, true})
+	for _, cf := range []cfg{{"full-alphabet", full, 1}, {"small-alphabet", small2, 2}} {
+		for _, stSet := range []bool{true, false} {
+			for split := 0; split <= cf.L; split++ {
+				cf, stSet, split := cf, stSet, split
+				expect := int64(1)
+				for i := 0; i < cf.L; i++ {
+					expect *= int64(len(cf.alpha))
+				}
+				out = append(out, mc.Scenario{
+					Name:   fmt.Sprintf("C10-via-ocsp-fallback-%s-len%d-base%d-signingTime%v", cf.name, cf.L, split, stSet),
+					Params: map[string]string{"alphabet": fmt.Sprint(len(cf.alpha)), "length": fmt.Sprint(cf.L), "entriesInBase": fmt.Sprint(split), "signingTimeSet": fmt.Sprint(stSet), "path": "OCSP responder unreachable -> CRL fallback"},
+					Bound:  -1, Expect: expect,
+					Body: func(c *mc.Ctx) { c10BodyVia(c, cf.alpha, cf.L, split, stSet, true) },
+				})
+			}
+		}
+	}
 	for _, cf := range cfgs {
 		for _, stSet := range []bool{true, false} {
 			for split := 0; split <= cf.L; split++ {
@@ -233,8 +263,13 @@ var (
 	c10EmptyDelta     *x509.RevocationList
 )
 
-func c10Body(c *mc.Ctx, alpha []c10Entry, L, split int, stSet bool) {
+func c10Body(c *mc.Ctx, alpha []c10Entry, L, split int, stSet bool) { c10BodyVia(c, alpha, L, split, stSet, false) }
+
+func c10BodyVia(c *mc.Ctx, alpha []c10Entry, L, split int, stSet bool, fallback bool) {
 	w := c10World()
+	if fallback {
+		w = c10WorldFallback()
+	}
 	entries := make([]c10Entry, L)
 	for i := 0; i < L; i++ {
 		entries[i] = alpha[c.ChooseFree("entry", len(alpha))]
